@@ -35,6 +35,7 @@ KF_ORDER = "KF-C10-inconsistent-area-order"
 KF_PREPEPTIDE = "KF-C10-prepeptide-location-parts"
 KF_FUNCTION = "KF-C10-gene-function-colon"
 KF_PRE_SEQUENCE = "KF-C10-prepeptide-long-sequence"
+KF_PRECISION = "KF-C10-number-precision"
 WORKERS = max(2, min(8, (os.cpu_count() or 4) // 2))
 
 
@@ -615,7 +616,7 @@ class C10(Property):
                        "n": len(case["domains"]),
                        # a hit score of exactly 0.0 and negative scores are legal (lenient e-value cut-offs)
                        "score": rng.choice([None, 0.0, 0.0, -1.2, 5.3, 250.75]),
-                       "evalue": rng.choice([None, 0.0, 0.12, 1.2e-05, 3.4e-30]),
+                       "evalue": rng.choice([None, 0.0, 0.12, 1.2e-05, 3.4e-30, 3.4e-30, 1.2345e-07]),
                        "label": rng.choice([None, "C1_example", "nrpspksdomains_x_PKS_KS.1"]),
                        "database": rng.choice([None, "abmotifs", "Pfam-A.hmm 31.0"]),
                        "detection": rng.choice([None, "hmmscan"]),
@@ -657,8 +658,8 @@ class C10(Property):
                         "cds": name, "class": rng.choice(["lanthipeptide", "sactipeptide", "thiopeptide"]),
                         "subclass": rng.choice(["Class-I", "Type-II", ""]), "tool": rng.choice(["lanthipeptides", "sactipeptides"]),
                         "leader": "M" * lead, "core": "C" * core, "tail": "G" * tail,
-                        "score": rng.choice([0.0, 12.5, -3.25]), "mono": rng.choice([800.1, 0.0]),
-                        "mw": rng.choice([801.2, 2345.6]), "alt": rng.choice([[], [819.2], [819.2, 837.2]])})
+                        "score": rng.choice([0.0, 12.5, -3.25, -3.25, 12.345]), "mono": rng.choice([800.1, 0.0, 800.1, 800.123]),
+                        "mw": rng.choice([801.2, 2345.6]), "alt": rng.choice([[], [819.2], [819.2, 837.2], [819.25]])})
         for _ in range(rng.choice([0, 0, 1])):
             lo = rng.randrange(0, n - 3)
             case["generics"].append({"type": "misc_feature", "loc": simple(lo, lo + 3, rng.choice([1, -1, None])),
@@ -806,6 +807,7 @@ class C10(Property):
         yield from self._precomputed(generated)
         yield from self.prepeptide_cases(rng, deep)
         yield from self.qualtext_cases(rng, deep)
+        yield from self.dom_cases(rng, deep)
         if deep:
             yield from self._precomputed(self.small_scope())
         self.extra_coverage = {"records_generated": count, "worker_processes": WORKERS}
@@ -1026,6 +1028,160 @@ class C10(Property):
         return Judgement(not problems, not bad, in_scope=bool(drv["scope"]), nontrivial=True, tags=tuple(tags),
                          detail="; ".join(bad + problems)[:1200])
 
+    # ---- domains and motifs outside any record (Dom in ASV/Model/SerialQual.lean)
+    DOM_KEYS = ["aSTool", "locus_tag", "protein_start", "protein_end", "aSDomain", "ASF", "domain_id", "database", "detection",
+                "label", "translation", "evalue", "score"]
+
+    def dom_cases(self, rng: random.Random, deep: bool) -> Iterator[Dict[str, Any]]:
+        def opt(values: List[Any], p_none: float = 0.4) -> Any:
+            return None if rng.random() < p_none else rng.choice(values)
+        for i in range(4000 if deep else 500):
+            strand = rng.choice([1, -1])
+            lo = rng.randrange(0, 200)
+            if rng.random() < 0.25:
+                parts = [[lo, lo + 30, strand], [lo + 40, lo + 70, strand]]
+                if strand == -1:
+                    parts.reverse()
+                loc = compound(parts)
+            else:
+                loc = simple(lo, lo + rng.choice([3, 60]), strand)
+            p_start = rng.randrange(0, 50)
+            case = {"f": "dom", "kind": rng.choice(["aSDomain", "CDS_motif"]), "loc": loc,
+                    "tool": rng.choice(["made_up_tool", "t", "cluster_hmmer"]), "locus_tag": rng.choice(["ctg1_5", "a", "x" * 50]),
+                    "p_start": p_start, "p_end": p_start + rng.choice([0, 1, 20]),
+                    "domain": opt(["PKS_KS", "Type III (x)", "a b"]), "asf": rng.sample(["hit b", "hit a", "c", "Z"], rng.randint(0, 3)),
+                    "domain_id": opt(["made_up_ctg1_5_0001", "id.1"], 0.1), "database": opt(["db.hmm", "a b"]),
+                    "detection": opt(["hmmscan", "by hand"]), "label": opt(["ctg1_5_KS1", "L"]),
+                    "evalue": opt([0.0, 1.5e-20, 0.12, 3.4e-30, 1e-300, 2.5, 1.2345e-07]), "score": opt([0.0, 12.5, -3.25, 100.0, 1e16, 0.1]),
+                    "translation": rng.choice(["", "MAGIC", "M" * 70]), "notes": rng.sample(["n2", "n1", "a note"], rng.randint(0, 2)),
+                    "quals": rng.sample([["custom", ["x", "y"]], ["zz", ["1"]], ["note", ["stored"]], ["inference", ["i"]]],
+                                        rng.randint(0, 2))}
+            if i % 3 == 2:
+                # read a damaged feature: both sides must refuse or accept alike
+                key = rng.choice(self.DOM_KEYS + ["tool", "note"])
+                case["mutate"] = rng.choice([["del", key], ["set", key, []], ["set", key, [""]], ["set", key, ["7", "8"]],
+                                             ["set", key, ["a b*"]], ["set", key, [" "]]])
+            yield case
+
+    @staticmethod
+    def _dump_dom(feature: Any) -> Dict[str, Any]:
+        return {"feat": dump_feat(feature), "tool": feature.tool, "locus_tag": feature.locus_tag,
+                "p_start": int(feature.protein_location.start), "p_end": int(feature.protein_location.end),
+                "domain": feature.domain, "asf": list(feature.asf.hits), "domain_id": feature.domain_id,
+                "database": feature.database, "detection": feature.detection, "label": feature.label,
+                "evalue": None if feature.evalue is None else f"{feature.evalue:.2E}",
+                "score": None if feature.score is None else str(feature.score), "translation": feature._translation,
+                # the numbers themselves, for the specification
+                "@evalue": feature.evalue, "@score": feature.score}
+
+    @classmethod
+    def observe_dom(cls, case: Dict[str, Any]) -> Dict[str, Any]:
+        from Bio.SeqFeature import SeqFeature
+        from antismash.common.secmet.features import AntismashDomain, CDSMotif
+        from antismash.common.secmet.locations import FeatureLocation
+        location = common.make_location(case["loc"])
+        protein = FeatureLocation(case["p_start"], case["p_end"])
+        klass = AntismashDomain if case["kind"] == "aSDomain" else CDSMotif
+        try:
+            if klass is AntismashDomain:
+                feature = AntismashDomain(location, case["tool"], protein, case["locus_tag"], domain=case["domain"])
+            else:
+                feature = CDSMotif(location, case["locus_tag"], protein, case["tool"])
+                feature.domain = case["domain"]
+            for name in ("domain_id", "database", "detection", "label"):
+                setattr(feature, name, case[name])
+            if case["evalue"] is not None:
+                feature.evalue = case["evalue"]
+            if case["score"] is not None:
+                feature.score = case["score"]
+            if case["translation"]:
+                feature.translation = case["translation"]
+            for hit in case["asf"]:
+                feature.asf.add(hit)
+            feature.notes.extend(case["notes"])
+            for key, values in case["quals"]:
+                feature._qualifiers[key] = list(values)
+            state = cls._dump_dom(feature)
+            bio = feature.to_biopython()[0]
+        except Exception as exc:  # pylint: disable=broad-except
+            return {"err": err_kind(exc), "msg": str(exc)[:200]}
+        out = {"state": state, "bio": {"loc": common.location_json(bio.location), "type": bio.type, "quals": qlist(bio.qualifiers)}}
+        quals = {k: list(v) for k, v in bio.qualifiers.items()}
+        if case.get("mutate"):
+            if case["mutate"][0] == "del":
+                quals.pop(case["mutate"][1], None)
+            else:
+                quals[case["mutate"][1]] = list(case["mutate"][2])
+            out["mutated"] = {"loc": out["bio"]["loc"], "type": bio.type, "quals": qlist(quals)}
+        try:
+            back = klass.from_biopython(SeqFeature(bio.location, type=bio.type, qualifiers=quals))
+            out["back"] = {"ok": cls._dump_dom(back)}
+            again = back.to_biopython()[0]
+            out["again"] = {"loc": common.location_json(again.location), "type": again.type, "quals": qlist(again.qualifiers)}
+        except Exception as exc:  # pylint: disable=broad-except
+            out["back"] = {"err": err_kind(exc), "msg": str(exc)[:200]}
+        return out
+
+    def judge_dom(self, case: Dict[str, Any], obs: Dict[str, Any], drv: Dict[str, Any]) -> Judgement:
+        tags = ["dom:" + case["kind"]]
+        if "err" in obs:
+            return Judgement(True, True, in_scope=False, tags=tuple(tags + ["not-built:" + obs["err"]]))
+
+        def strip(d: Dict[str, Any]) -> Dict[str, Any]:
+            return {k: v for k, v in d.items() if not k.startswith("@") and k != "msg"}
+
+        def bio_of(d: Dict[str, Any]) -> Any:
+            return [{k: v for k, v in b.items() if k != "ls"} for b in d.get("ok", [])] if "ok" in d else d
+        real_back = {"ok": strip(obs["back"]["ok"])} if "ok" in obs["back"] else {"err": obs["back"]["err"]}
+        if "mutated" in obs:
+            tags.append("damaged:" + ("accepted" if "ok" in obs["back"] else obs["back"]["err"]))
+            if real_back.get("err", "").startswith(("value-error:", "other:")) or \
+                    (case["mutate"][1] in ("evalue", "score") and case["mutate"][0] == "set"):
+                # float() of arbitrary text is outside the model (numbers are kept as text)
+                return Judgement(True, True, in_scope=False, tags=tuple(tags + ["number-text"]))
+            corr = drv["back"] == real_back or drv["back"].get("err") == "unsupported"
+            return Judgement(corr, True, in_scope=False, nontrivial=True, tags=tuple(tags),
+                             detail="" if corr else f"from_biopython of {obs['mutated']}: model {drv['back']} vs implementation {real_back}")
+        problems = []
+        if bio_of(drv["bio"]) != [obs["bio"]]:
+            problems.append(f"written: model {drv['bio']} vs implementation {obs['bio']}")
+        if drv["back"] != real_back:
+            problems.append(f"re-read: model {drv['back']} vs implementation {real_back}")
+        if "again" in obs and bio_of(drv["again"]) != [obs["again"]]:
+            problems.append(f"second write: model {drv['again']} vs implementation {obs['again']}")
+        bad = []
+        if case["kind"] == "aSDomain" and not case["domain_id"]:
+            # not an annotation a record can hold (Record.add_antismash_domain needs the name); both sides refuse to read it
+            tags.append("domain-without-id")
+            return Judgement(not problems and drv["back"] == {"err": "assertion"}, True, in_scope=False, tags=tuple(tags),
+                             detail="; ".join(problems)[:1500])
+        if "err" in obs["back"]:
+            bad.append(f"re-reading raised {obs['back']['err']}: {obs['back'].get('msg')}")
+        else:
+            before, after = obs["state"], obs["back"]["ok"]
+            for key in before:
+                if key in ("feat", "evalue", "score"):
+                    continue
+                if before[key] != after[key]:
+                    bad.append(f"{key.lstrip('@')}: {before[key]!r} -> {after[key]!r}")
+            fb, fa = before["feat"], after["feat"]
+            view_b = (fb["loc"], fb["type"], sorted(fb["notes"] + dict(fb["quals"]).get("note", [])), fb["byAS"], fb["codon"],
+                      sorted(q for q in fb["quals"] if q[0] not in ("note", "tool")))
+            view_a = (fa["loc"], fa["type"], sorted(fa["notes"] + dict(fa["quals"]).get("note", [])), fa["byAS"], fa["codon"],
+                      sorted(q for q in fa["quals"] if q[0] not in ("note", "tool")))
+            if view_b != view_a:
+                bad.append(f"base feature {view_b} -> {view_a}")
+            if obs["again"] != obs["bio"]:
+                bad.append("the second write differs from the first")
+        exact = case["evalue"] is None or float(f"{case['evalue']:.2E}") == case["evalue"]
+        known = None
+        if not exact and len(bad) == 1 and bad[0].startswith("evalue:") and \
+                obs["back"]["ok"]["@evalue"] == float(f"{case['evalue']:.2E}"):
+            known = KF_PRECISION
+        # the model's e-value is the written text: the theorem speaks about values that are their own three-digit form
+        return Judgement(not problems, not bad, in_scope=bool(drv["scope"]) and exact, known=known, nontrivial=True,
+                         tags=tuple(tags), detail="; ".join(bad + problems)[:1500])
+
     def _precomputed(self, cases: Iterator[Dict[str, Any]]) -> Iterator[Dict[str, Any]]:
         """runs the real round trips of a chunk of cases in worker processes (the implementation side is
         pure per case); `run_impl` then finds the observation in the cache"""
@@ -1078,6 +1234,8 @@ class C10(Property):
             return self.observe_prepeptide(case)
         if case["f"] == "qualtext":
             return self.observe_qualtext(case)
+        if case["f"] == "dom":
+            return self.observe_dom(case)
         try:
             rec = build_record(case)
         except Exception as exc:  # pylint: disable=broad-except
@@ -1132,6 +1290,12 @@ class C10(Property):
     def driver_line(self, case: Dict[str, Any], obs: Dict[str, Any]) -> Optional[Dict[str, Any]]:
         if case["f"] == "prepeptide":
             return dict(case, re=obs.get("re"))
+        if case["f"] == "dom":
+            if "state" not in obs:
+                return None
+            if "mutated" in obs:
+                return {"f": "dom", "kind": case["kind"], "bio": obs["mutated"]}
+            return {"f": "dom", "kind": case["kind"], "d": {k: v for k, v in obs["state"].items() if not k.startswith("@")}}
         if case["f"] == "qualtext":
             if case["kind"] == "secmet":
                 # numbers travel as the text Python writes for them (`str(float)`, `str(int)`: trusted layer)
@@ -1200,6 +1364,10 @@ class C10(Property):
         if case["f"] == "qualtext":
             assert drv is not None
             return self.judge_qualtext(case, obs, drv)
+        if case["f"] == "dom":
+            if drv is None:
+                return self.judge_dom(case, obs, {})
+            return self.judge_dom(case, obs, drv)
         if "skip" in obs:
             return Judgement(True, True, in_scope=False, tags=("skipped:" + obs["skip"],))
         if "err" in obs:
@@ -1296,35 +1464,53 @@ class C10(Property):
         long_pre = any(len(p["leader"]) > 40 or len(p["core"]) > 42 or len(p["tail"]) > 42 for p in case.get("prepeptides", []))
         colon = any(product is None and ":" in desc for a in case.get("annot", []) for _f, _t, desc, product in a["functions"])
 
-        def blur(obj: Any, flags: Tuple[bool, bool, bool]) -> Any:
-            parts, func, spaces = flags
+        def fixed(value: Any, fmt: str) -> Any:
+            return float(format(value, fmt)) if isinstance(value, float) else value
+
+        def lossy(obj: Any) -> bool:
+            if isinstance(obj, list):
+                return any(lossy(x) for x in obj)
+            if not isinstance(obj, dict):
+                return False
+            return blur(obj, (False, False, False, True)) != obj
+        Flags = Tuple[bool, bool, bool, bool]
+
+        def blur(obj: Any, flags: Flags) -> Any:
+            parts, func, spaces, numbers = flags
             if isinstance(obj, list):
                 return [blur(x, flags) for x in obj]
             if not isinstance(obj, dict):
                 return obj
+            if numbers and "_evalue" in obj:
+                obj = dict(obj, _evalue=fixed(obj["_evalue"], ".2E"))
             if obj.get("cls") == "Prepeptide":
                 if parts:
                     # the same bases in the same transcription order, whatever the cut into parts
                     obj = dict(obj, **{"@loc": merge_in_transcription_order(obj["@loc"]["parts"])})
                 if spaces:
                     obj = dict(obj, **{k: obj[k].replace(" ", "") for k in ("_leader", "_core", "_tail")})
+                if numbers:
+                    obj = dict(obj, _score=fixed(obj["_score"], ".2f"), monoisotopic_mass=fixed(obj["monoisotopic_mass"], ".1f"),
+                               molecular_weight=fixed(obj["molecular_weight"], ".1f"),
+                               alternative_weights=[fixed(w, ".1f") for w in obj["alternative_weights"]])
             if func and obj.get("cls") == "_GeneFunctionAnnotation":
                 text = obj["description"] if not obj["product"] else f"{obj['product']}: {obj['description']}"
                 return {"cls": obj["cls"], "function": obj["function"], "tool": obj["tool"], "text": text.replace(" ", "")}
             return {k: blur(v, flags) for k, v in obj.items()}
 
-        def same(flags: Tuple[bool, bool, bool]) -> bool:
+        def same(flags: Flags) -> bool:
             a = blur(obs["state"]["attrs"], flags)
             return not attrs_diff(a, blur(obs["re_gb"]["attrs"], flags), textual=True) and \
                 not attrs_diff(a, blur(obs["re_json"]["attrs"], flags), textual=False)
-        classes = [((False, True, False), colon, KF_FUNCTION), ((True, False, False), has_pre, KF_PREPEPTIDE),
-                   ((False, False, True), long_pre, KF_PRE_SEQUENCE)]
+        classes = [((False, True, False, False), colon, KF_FUNCTION), ((True, False, False, False), has_pre, KF_PREPEPTIDE),
+                   ((False, False, True, False), long_pre, KF_PRE_SEQUENCE),
+                   ((False, False, False, True), lossy(obs["state"]["attrs"]), KF_PRECISION)]
         applicable = [c for c in classes if c[1]]
         for flags, _, kf in applicable:
             if same(flags) and (obs["text_fixed"] or flags[2]):
                 return kf
         if len(applicable) > 1:
-            union = tuple(any(c[0][i] for c in applicable) for i in range(3))
+            union = tuple(any(c[0][i] for c in applicable) for i in range(4))
             if same(union) and (obs["text_fixed"] or union[2]):   # several recorded findings at once
                 return applicable[0][2]
         return None
